@@ -247,6 +247,9 @@ func c02a(c *Ctx, r *Report) {
 				return true
 			})
 		}
+		if why != "" && groupsByOwnSource(c, g) {
+			why = ""
+		}
 		r.Check(why == "", clause, "R2 COVERAGE", g.Name+"/transitions-grouped-by-source-state", c.pos(g.Decl.Pos()),
 			"for every state, exactly the transitions whose source is that state are handed to CheckAndResolveConflict", why)
 		// rows
@@ -552,4 +555,48 @@ func c02b(c *Ctx, r *Report, st *Staged) {
 		ok := strings.Contains(strings.Join(strings.Fields(txt), " "), "Action(a :number) :number { return StateActionArray[this.Yystate][a] }")
 		r.Check(ok, clause, "R4 DECISION-TABLE", "typescript/StateSym.Action", "Builder/TsGenCode.go (UnionPart literal)", "the TypeScript reader is table[state][symbol]", "the TypeScript reader is not StateActionArray[this.Yystate][a]")
 	}
+}
+
+// groupsByOwnSource: the one-pass form of the grouping — a single unconditional loop over all transitions that appends
+// each transition to the group indexed by its OWN source state (`set[tr.q] = append(set[tr.q], tr)`), guarded at most
+// by range checks of that source state against 0 and the number of states (a transition outside that range belongs
+// to no row anyway).
+func groupsByOwnSource(c *Ctx, g *FuncRef) bool {
+	cf := newCoverFn(g)
+	info := cf.info
+	ok := false
+	for _, rs := range cf.rangesOver(nil, func(e ast.Expr) bool { return fieldNamed(info, e, "trans") }) {
+		tr := identObj(info, rs.Value)
+		if tr == nil || cf.pm[rs] != ast.Node(g.Decl.Body) || !cf.unconditional(rs, g.Decl.Body) || !noSkips(rs.Body) {
+			continue
+		}
+		ast.Inspect(rs.Body, func(n ast.Node) bool {
+			as, isA := n.(*ast.AssignStmt)
+			if !isA || len(as.Lhs) != 1 || len(as.Rhs) != 1 {
+				return true
+			}
+			ix, isI := unparen(as.Lhs[0]).(*ast.IndexExpr)
+			if !isI || !cf.selOn(ix.Index, "q", tr) {
+				return true
+			}
+			call, isC := unparen(as.Rhs[0]).(*ast.CallExpr)
+			if !isC || builtinName(info, call) != "append" || len(call.Args) != 2 || exprString(call.Args[0]) != exprString(as.Lhs[0]) || identObj(info, call.Args[1]) != tr {
+				return true
+			}
+			good := true
+			for _, a := range guardAtoms(c, g, as) {
+				// allowed: `<tr>.q >= 0`, `<tr>.q < len(…LR0Closure)` (also through a local defined as that length)
+				if strings.HasPrefix(a, "(elem(") && strings.Contains(a, ").q >= 0)") {
+					continue
+				}
+				if strings.HasPrefix(a, "(elem(") && strings.Contains(a, ").q < len(") && strings.HasSuffix(a, ".LR0Closure))") {
+					continue
+				}
+				good = false
+			}
+			ok = good
+			return true
+		})
+	}
+	return ok
 }
